@@ -62,7 +62,6 @@ func OracleC17(w *W2Run) []Violation {
 			cur--
 		}
 	}
-	w.Out.count("probe/max_requests_inside_rules_at_once", 0)
 	if worst >= w.Max {
 		w.Out.count("probe/all_instances_busy_simultaneously", 1)
 	}
